@@ -52,6 +52,13 @@ def run(tier, rng, C):
     v += bad
     stats["large_document_pairs"] = nbig
     stats["evaluations"] = stats.get("evaluations", 0) + nbig
+    # the same library calls through the crate's own HTTP clients (reqwest, reqwest blocking, curl, ureq) against a scripted
+    # loopback server: the outcome must be the one an in-memory client given the same reply produces (gen/same.py)
+    from gen import same as SAME
+    bad_same, n_same = SAME.run("C06", SAME.cases(["code", "refresh"], rng, statuses=(200,), success_docs=12, with_errors=False) + [c for c in SAME.poll_cases(rng) if " 200 " in c[0]], C)
+    v += bad_same
+    stats["through_bundled_adapters"] = n_same
+    stats["evaluations"] = stats.get("evaluations", 0) + n_same
     stats["rule"] = ("token value-model documents: hostile Unicode strings with random JSON escaping (\\\\uXXXX, surrogate pairs, short escapes, \\\\/), expires_in over the u64 range and beyond, 0..n scopes incl. double/leading/trailing spaces, "
                      "token_type in many letter-cases and extension names, optional members absent/null/present, unknown members of every JSON type, declared extension members, any member order and whitespace; "
                      "standard and extension response types; decoded directly and through a 200 reply on the four token-endpoint kinds, blocking and future-based; all single-member deletions, 15 type corruptions, "
